@@ -440,7 +440,8 @@ impl<E: El, I: Item<E>> Chain<E, I> {
                     if !self.tap_pending[g] {
                         let k = *self.segs[g].stages.last().unwrap();
                         return Err(viol(
-                            self.view_prop(g, cx),
+                            // the waker of this poll is not registered below: C14's business too
+                            if cx.prop == "C14" { "C14" } else { self.view_prop(g, cx) },
                             cx.step,
                             format!("pending-although-input-not-pending/{}", self.stages[k].kind.name()),
                             format!("stage(s) {:?} answered Pending although the stream below last answered with an item: undelivered input may remain", self.segs[g].stages),
